@@ -227,3 +227,122 @@ package utreexo
 //@ lemma removebit_addbit(v uint64, k uint64, b bool)
 //@   requires k <= 63 && v < pow2(63)
 //@   ensures removeBit(addBit(v, k, b), k) == v
+
+// ---------------------------------------------------------------------------
+// C04 / C03 / C05 / C11: the verification cone (prove.go, stump.go)
+// ---------------------------------------------------------------------------
+
+//@ func nextLeastSlice(slice1 []uint64, slice2 []uint64, idx1 int, idx2 int) (res int)
+//@   requires 0 <= idx1 && 0 <= idx2
+//@   ensures res == -1 || res == 0 || res == 1
+//@   ensures (res == -1) == (idx1 >= len(slice1) && idx2 >= len(slice2))
+//@   ensures res == 0 ==> idx1 < len(slice1)
+//@   ensures res == 1 ==> idx2 < len(slice2)
+
+//@ func getNextPos(slice1 []uint64, slice2 []uint64, slice1Idx int, slice2Idx int) (pos uint64, idx int, sibIdx int)
+//@   requires 0 <= slice1Idx && slice1Idx <= len(slice1) && 0 <= slice2Idx && slice2Idx <= len(slice2)
+//@   ensures (idx == -1 || idx == 0 || idx == 1) && (sibIdx == -1 || sibIdx == 0 || sibIdx == 1)
+//@   ensures (idx == -1) == (slice1Idx == len(slice1) && slice2Idx == len(slice2))
+//@   ensures idx == -1 ==> sibIdx == -1
+//@   ensures idx == 0 ==> slice1Idx < len(slice1) && pos == slice1[slice1Idx]
+//@   ensures idx == 1 ==> slice2Idx < len(slice2) && pos == slice2[slice2Idx]
+//@   ensures sibIdx == 0 ==> slice1Idx + b2i(idx == 0) < len(slice1)
+//@   ensures sibIdx == 1 ==> slice2Idx + b2i(idx == 1) < len(slice2)
+
+//@ func getNextHash(pos uint64, hash Hash, sibHash Hash) (res Hash)
+//@   ensures hash == empty ==> res == sibHash
+//@   ensures hash != empty && sibHash == empty ==> res == hash
+//@   ensures hash != empty && sibHash != empty && pos%2 == 0 ==> res == H(hash, sibHash)
+//@   ensures hash != empty && sibHash != empty && pos%2 == 1 ==> res == H(sibHash, hash)
+
+//@ func parentHash(l Hash, r Hash) (res Hash)
+//@   trusted
+//@   ensures res == H(l, r)
+
+//@ func (hnp hashAndPos) Len() (res int)
+//@   ensures res == len(hnp.positions)
+
+//@ func (hnp hashAndPos) Swap(i int, j int)
+//@   requires 0 <= i && i < len(hnp.positions) && 0 <= j && j < len(hnp.positions) && len(hnp.hashes) == len(hnp.positions)
+
+//@ func (hnp hashAndPos) Less(i int, j int) (res bool)
+//@   requires 0 <= i && i < len(hnp.positions) && 0 <= j && j < len(hnp.positions)
+
+//@ func (hnp *hashAndPos) Append(position uint64, hash Hash)
+//@   ensures len(hnp.positions) == old(len(hnp.positions)) + 1 && len(hnp.hashes) == old(len(hnp.hashes)) + 1
+//@   ensures hnp.positions[old(len(hnp.positions))] == position && hnp.hashes[old(len(hnp.hashes))] == hash
+
+//@ func toHashAndPos(origTargets []uint64, origHashes []Hash) (res hashAndPos)
+//@   ensures len(res.positions) == len(origTargets) && len(res.hashes) == len(origHashes)
+
+//@ func mergeSortedHashAndPos(a hashAndPos, b hashAndPos) (c hashAndPos)
+//@   requires len(a.positions) == len(a.hashes) && len(b.positions) == len(b.hashes)
+//@   ensures len(c.positions) == len(c.hashes) && len(c.positions) <= len(a.positions) + len(b.positions)
+//@   loop 1: invariant 0 <= idxa && idxa <= maxa && 0 <= idxb && idxb <= maxb && 0 <= j
+//@   loop 1: invariant maxa == len(a.positions) && maxb == len(b.positions)
+//@   loop 1: invariant len(c.positions) == maxa + maxb && len(c.hashes) == maxa + maxb
+//@   loop 1: decreases maxa + maxb - j
+
+//@ func calculateHashes(numLeaves uint64, delHashes []Hash, proof Proof) (hp hashAndPos, roots []Hash, err error)
+//@   requires numLeaves <= pow2(63)
+//@   requires delHashes == nil || len(delHashes) == len(proof.Targets)
+//@   ensures err == nil ==> len(hp.positions) == len(hp.hashes)
+//@   loop 1: invariant 0 <= toProveIdx && toProveIdx <= len(toProve.positions) && len(toProve.positions) == len(toProve.hashes)
+//@   loop 1: invariant 0 <= nextProvesIdx && nextProvesIdx <= len(nextProves.positions) && len(nextProves.positions) == len(nextProves.hashes)
+//@   loop 1: invariant 0 <= proofHashIdx
+//@   loop 2: invariant row <= totalRows
+//@   loop 2: decreases int(totalRows) + 1 - int(row)
+
+//@ func Verify(stump Stump, delHashes []Hash, proof Proof) (idx []int, err error)
+//@   requires stump.NumLeaves <= pow2(63)
+//@   ghost rootCandidates
+//@   ensures err == nil ==> len(delHashes) == len(proof.Targets)
+//@   ensures err == nil ==> len(idx) == len(rootCandidates)
+//@   ensures err == nil ==> forall k in 0..len(idx): 0 <= idx[k] && idx[k] < len(stump.Roots)
+//@   ensures err == nil ==> forall k in 0..len(idx): stump.Roots[idx[k]] == rootCandidates[k]
+//@   ensures err == nil ==> forall k in 1..len(idx): idx[k-1] > idx[k]
+//@   loop 1: invariant len(rootIndexes) <= len(rootCandidates) && len(rootIndexes) <= i
+//@   loop 1: invariant forall k in 0..len(rootIndexes): len(stump.Roots) - i <= rootIndexes[k] && rootIndexes[k] < len(stump.Roots) && stump.Roots[rootIndexes[k]] == rootCandidates[k]
+//@   loop 1: invariant forall k in 1..len(rootIndexes): rootIndexes[k-1] > rootIndexes[k]
+
+//@ func (s *Stump) del(delHashes []Hash, proof Proof) (hashes []Hash, positions []uint64, err error)
+//@   requires s.NumLeaves <= pow2(63)
+//@   ensures s.NumLeaves == old(s.NumLeaves) && len(s.Roots) == old(len(s.Roots))
+//@   ensures err != nil ==> forall k in 0..len(s.Roots): s.Roots[k] == old(s.Roots)[k]
+//@   loop 1: invariant s.NumLeaves == old(s.NumLeaves) && len(s.Roots) == old(len(s.Roots))
+
+//@ func rootsToDestory(numAdds uint64, numLeaves uint64, origRoots []Hash) (res []uint64)
+//@   requires len(origRoots) == int(popcount(numLeaves)) && numLeaves <= pow2(63) && numAdds <= pow2(63) - numLeaves && numAdds < pow2(63)
+//@   loop 2: invariant len(roots) == int(popcount(numLeaves))
+//@   loop 2: invariant numLeaves == old(numLeaves) + i && i <= numAdds
+//@   loop 3: invariant len(roots) + int(h) == int(popcount(numLeaves)) && lowOnes(numLeaves, h) && h <= 63 && numLeaves < pow2(63)
+//@   loop 3: use popcount_succ(numLeaves, h)
+//@   loop 3: use popcount_lowones(numLeaves, h)
+//@   loop 3: decreases 64 - int(h)
+//@   loop 2: decreases int(numAdds - i)
+
+//@ func (s *Stump) add(adds []Hash) (hashes []Hash, positions []uint64, destroyed []uint64)
+//@   requires len(s.Roots) == int(popcount(s.NumLeaves)) && s.NumLeaves <= pow2(63) && uint64(len(adds)) <= pow2(63) - s.NumLeaves
+//@   ensures len(s.Roots) == int(popcount(s.NumLeaves)) && s.NumLeaves == old(s.NumLeaves) + uint64(len(adds))
+//@   loop 1: invariant len(s.Roots) == int(popcount(s.NumLeaves)) && s.NumLeaves == old(s.NumLeaves) + uint64(i)
+//@   loop 3: invariant len(s.Roots) + int(h) == int(popcount(s.NumLeaves)) && lowOnes(s.NumLeaves, h) && h <= 63 && s.NumLeaves < pow2(63) && s.NumLeaves == old(s.NumLeaves) + uint64(i)
+//@   loop 3: use popcount_succ(s.NumLeaves, h)
+//@   loop 3: use popcount_lowones(s.NumLeaves, h)
+//@   loop 3: decreases 64 - int(h)
+
+//@ func (s *Stump) Update(delHashes []Hash, addHashes []Hash, proof Proof) (ud UpdateData, err error)
+//@   requires len(s.Roots) == int(popcount(s.NumLeaves)) && s.NumLeaves <= pow2(63) && uint64(len(addHashes)) <= pow2(63) - s.NumLeaves
+//@   ensures err != nil ==> s.NumLeaves == old(s.NumLeaves) && len(s.Roots) == old(len(s.Roots))
+//@   ensures err != nil ==> forall k in 0..len(s.Roots): s.Roots[k] == old(s.Roots)[k]
+//@   ensures err == nil ==> ud.PrevNumLeaves == old(s.NumLeaves) && s.NumLeaves == old(s.NumLeaves) + uint64(len(addHashes)) && len(s.Roots) == int(popcount(s.NumLeaves))
+
+//@ lemma popcount_succ(n uint64, h uint8)
+//@   requires h <= 63 && lowOnes(n, h) && !hasRoot(n, h)
+//@   ensures popcount(n + 1) + h == popcount(n) + 1
+//@   ensures popcount(n) >= h
+//@   split h 0 63
+
+//@ lemma popcount_lowones(n uint64, h uint8)
+//@   requires h <= 63 && lowOnes(n, h) && hasRoot(n, h)
+//@   ensures popcount(n) >= h + 1
+//@   split h 0 63
